@@ -1,5 +1,6 @@
 import SwcVerif.Props.C08
 import SwcVerif.Props.C08Gen
+import SwcVerif.Props.C08Node
 #print axioms C08.getBranches_eq
 #print axioms C08.branches_partition_edges
 #print axioms C08.branch_shape
@@ -22,3 +23,11 @@ import SwcVerif.Props.C08Gen
 #print axioms C08.generated_getBranches_eq
 #print axioms C08.generated_getBranches_eq_model
 #print axioms C08.generated_furcations_eq
+#print axioms RefineNode.node_parent_spec
+#print axioms RefineNode.node_is_root_spec
+#print axioms RefineNode.node_children_spec
+#print axioms RefineNode.node_is_furcation_spec
+#print axioms RefineNode.node_is_tip_spec
+#print axioms RefineNodeBranch.getTips_refines
+#print axioms C08.generated_tips_childless
+#print axioms C08.generated_tips_eq_tipsOf
